@@ -189,6 +189,38 @@ def r2_r3_trxcon(L, repo, spec, us2s):
         raise AnalysisError("trx_data_rx_cb: burst indication initialiser not found")
     names = [nm for nm, _ in tu.record_fields("trxcon_phyif_burst_ind")]
     vals = dict(zip(names, kids(il)))
+
+    def resolve_local(e, depth=0):
+        """a local scalar that is assigned exactly once (declaration initialiser or one `=`), before the indication
+        is built, stands for the assigned expression (e.g. `fn = osmo_load32be(buf + 1); ... .fn = fn`)"""
+        b = strip(e, casts=False)
+        if kind(b) != "DeclRefExpr" or depth > 3:
+            return e
+        nm = ctext(b)
+        if nm in ("buf", "read_len", "burst"):
+            return e
+        defs = []
+        for n in walk(body):
+            if kind(n) == "BinaryOperator" and n.get("opcode") == "=" and ctext(kids(n)[0]) == nm:
+                defs.append((n, kids(n)[1]))
+            elif kind(n) == "VarDecl" and n.get("name") == nm and kids(n):
+                defs.append((n, kids(n)[-1]))
+            elif kind(n) in ("CompoundAssignOperator",) and ctext(kids(n)[0]) == nm:
+                return e
+            elif kind(n) == "UnaryOperator" and n.get("opcode") in ("++", "--", "&") and ctext(kids(n)[0]) == nm:
+                return e
+        if len(defs) != 1:
+            return e
+        dn, rhs = defs[0]
+        try:
+            if not g.dominates(g.node_of(dn), init_node0):
+                return e
+        except Exception:
+            return e
+        return resolve_local(rhs, depth + 1)
+    init_node0 = g.node_of(il)
+    vals_raw = dict(vals)
+    vals = {k: resolve_local(v) for k, v in vals.items()}
     init_node = g.node_of(il)
     lits = g.guard_lits(init_node)
     low = CLower(tu, keep_casts=True)
@@ -274,7 +306,9 @@ def r2_r3_trxcon(L, repo, spec, us2s):
     caps = set()
     top = max(ext0, max(sp["burst"]["lengths"]) + sp["hdr_len"] + sp["burst"]["legacy_pad"] + 8)
     for Ln in range(1, top + 1):
-        hooks = {"read": lambda e, env, Ln=Ln: read_hook(e, env, Ln), "recv": lambda e, env, Ln=Ln: read_hook(e, env, Ln)}
+        # the datagram folded is one with a legal header (version 0, frame number 0): only its length varies
+        hooks = {"read": lambda e, env, Ln=Ln: read_hook(e, env, Ln), "recv": lambda e, env, Ln=Ln: read_hook(e, env, Ln),
+                 "osmo_load32be": lambda e, env: 0, "osmo_load16be": lambda e, env: 0}
         if caps and Ln > max(caps) and Ln not in want:
             continue        # longer than the receive capacity and not a legal length: outside the property (arrives truncated)
         ci_ = CInterp(tu, hooks=hooks, stop=is_stop)
@@ -342,7 +376,8 @@ def r2_r3_trxcon(L, repo, spec, us2s):
     for c in hb:
         cl_ = g.guard_lits(g.node_of(c))
         L.ob("C04.R2", FC, "trx_data_rx_cb", "a burst is delivered only for FN < 2715648 (the toolkit's GSM_HYPERFRAME)",
-             "bi.fn < %d" % H, sorted(("" if p else "!") + t_ for t_, p in cl_ if "fn" in t_), ("bi.fn < %d" % H, True) in cl_, tu.line(c))
+             "bi.fn < %d" % H, sorted(("" if p else "!") + t_ for t_, p in cl_ if "fn" in t_),
+             any(("%s < %d" % (x_, H), True) in cl_ for x_ in ("bi.fn", ctext(vals_raw["fn"]), ctext(vals["fn"]))), tu.line(c))
     Hpy = fold(repo, repo.mod("gsm_shared"), ast.parse("GSM_HYPERFRAME", mode="eval").body)
     L.require("C04.R2", rel("gsm_shared"), "<module>", "toolkit's GSM_HYPERFRAME equals trxcon's GSM_TDMA_HYPERFRAME", H, Hpy)
     L.unit(rel("gsm_shared"))
